@@ -34,6 +34,7 @@ def required(tier):
         "relayout.glr.rejected": 1500,
         "relayout.lr.accepted": 500,
         "relayout.lr.rejected": 1000,
+        "relayout.glr_table.accepted": 500,
         "ws_vs_rule.glr": 2000,
         "ws_vs_rule.lr": 500,
         "ws_vs_rule.positions_compared": 2000,
@@ -113,6 +114,11 @@ def parsers_for(text, kind):
         lr = pgx.lr(pgx.grammar(text), build_tree=True, **kw)
     except Exception:  # noqa: BLE001
         pass
+    # a parser given a precomputed table must treat layout exactly like one that computes it
+    try:
+        glr.with_table = pgx.glr(pg, table=glr.table, **kw)
+    except Exception:  # noqa: BLE001
+        glr.with_table = None
     return pg, glr, lr
 
 
@@ -185,7 +191,7 @@ def relayout_check(ctx, g, built, case, w, a, b):
     pg, glr, lr = built
     (ta, pa, ea, la), (tb, pb, eb, lb) = a, b
     nontrivial = len(w) >= 1 and (len(ta) > len(w) or len(tb) > len(w))
-    for name, parser, is_glr in (("GLR", glr, True), ("LR", lr, False)):
+    for name, parser, is_glr in (("GLR", glr, True), ("LR", lr, False), ("GLR-table", getattr(glr, "with_table", None), True)):
         if parser is None:
             continue
         key = (case["texts"][case["kind"]], name, w, ta, tb)
@@ -213,7 +219,7 @@ def relayout_check(ctx, g, built, case, w, a, b):
             ctx.violation("relayout-changes-acceptance", c, "%s: %r gives %s, %r gives %s" % (name, ta, oa[0], tb, ob[0]))
             continue
         if oa[0] == "syntax":
-            ctx.count("relayout.%s.rejected" % name.lower())
+            ctx.count("relayout.%s.rejected" % name.lower().replace("-table", "_table"))
             # corresponding error positions: same token index (or end of input)
             def tok_index(pos, ps, end, ln):
                 if pos in ps:
@@ -227,7 +233,7 @@ def relayout_check(ctx, g, built, case, w, a, b):
             if ia != ib:
                 ctx.violation("relayout-changes-error-position", c, "%s: error at %s (token %s) in %r, at %s (token %s) in %r" % (name, oa[1], ia, ta, ob[1], ib, tb))
             continue
-        ctx.count("relayout.%s.accepted" % name.lower())
+        ctx.count("relayout.%s.accepted" % name.lower().replace("-table", "_table"))
         if is_glr:
             if oa[1] != ob[1]:
                 ctx.violation("relayout-changes-tree-count", c, "GLR: %s trees for %r, %s trees for %r" % (oa[1], ta, ob[1], tb))
